@@ -2,5 +2,5 @@ CONSTANTS EP = {"e1", "e2"}  Models = {"ma"}  Ask = {"ma", "mz"}  Kinds = {"olla
           Routes = {"proxy", "ollama", "anthropic"}  MaxLen = 0
 SPECIFICATION Spec
 VIEW View
-INVARIANTS TypeOK ServedByCandidate CandsSound RefusedIsOut NeverListedNeverServed
+INVARIANTS TypeOK ServedByCandidate CandsSound RefusedIsOut NeverListedNeverServed TopTierFirst
 CHECK_DEADLOCK FALSE
